@@ -2,6 +2,8 @@
 import vlib
 from pipes_common import PipeSpec
 
+SPECS = {"iterator": (PipeSpec("iter", False), "harness", "runner"), "stream": (PipeSpec("stream", False), "harness", "runner")}
+
 PROP_FILES = ["C07"]
 
 
